@@ -121,7 +121,12 @@ func Register[G any](name string, p *participle.Parser[G], elided []string, samp
 		)
 		switch entry {
 		case "bytes":
-			ast, err = p.ParseBytes(filename, input, opts...)
+			// the buffer is the caller's: it is reused as soon as the call has returned
+			buf := append([]byte(nil), input...)
+			ast, err = p.ParseBytes(filename, buf, opts...)
+			for i := range buf {
+				buf[i] = '#'
+			}
 		case "reader":
 			ast, err = p.Parse(filename, bytes.NewReader(input), opts...)
 		case "namedreader":
